@@ -25,6 +25,10 @@ private def parseDeal (s : String) : Option Deal :=
     let sid ← hexN sid; let i ← hexN i; let v ← hexN v; let ri ← hexN ri; let rv ← hexN rv
     let t ← hexN t; let cs ← hexNList cs
     pure { sid := sid, i := i, v := v, ri := ri, rv := rv, t := t, commits := cs }
+  | [sid, i, v, ri, rv, t, cs, csid] => do
+    let sid ← hexN sid; let i ← hexN i; let v ← hexN v; let ri ← hexN ri; let rv ← hexN rv
+    let t ← hexN t; let cs ← hexNList cs; let csid ← hexN csid
+    pure { sid := sid, i := i, v := v, ri := ri, rv := rv, t := t, commits := cs, csid := csid }
   | _ => none
 
 private def parseOp (s : String) : Option Op :=
